@@ -25,7 +25,7 @@ func TestC04(t *testing.T) {
 	runProp(t, &propSpec{
 		id: "C04",
 		profile: &Profile{
-			Name: "C04", MinSteps: 8, MaxSteps: 40, MaxClient: 4, OddSometimes: true, Streams: true, V6: true, RealGen: true, Fragments: []string{"perm", "chan", "alloc"},
+			Name: "C04", MinSteps: 8, MaxSteps: 40, MaxClient: 4, OddSometimes: true, Streams: true, V6: true, RealGen: true, Fragments: []string{"perm", "chan", "alloc", "txpair", "txpair"},
 			Weights: map[string]int{"Allocate": 10, "Refresh": 8, "CreatePermission": 12, "ChannelBind": 12, "Send": 12, "ChannelData": 12, "PeerData": 14, "Sleep": 6, "Binding": 2, "RelayError": 1, "CloseControl": 1},
 		},
 		nontrivial: func(st *Stats, sc *Script) bool {
